@@ -218,20 +218,38 @@ def summarise_arr(orig, ph, name, out, i, iname, n, what):
         g = None
         if ind.terms and len(ind.terms) == 1:
             ia = ind.terms[0][0][0][0]
-            # split delta = ind * B
-            B = ZERO
-            ok = True
-            for m, c in delta.terms:
-                d = dict(m)
-                if d.get(ia, 0) != 1:
-                    ok = False
-                    break
-                rest = tuple(x for x in m if x[0] is not ia)
-                B = B + Poly({rest: c})
-            if ok:
-                g = B + pin
+
+            def split(oo, depth=0):
+                """oo = in + [j_a == i] * (g - in)  ->  g ; an if/else in the body arrives as ite(c, <such a form>, <such a form>)"""
+                at = T._single_atom(oo, "ite")
+                if at is not None and depth < 4:
+                    ga, gb = split(P(at.args[1]), depth + 1), split(P(at.args[2]), depth + 1)
+                    return None if ga is None or gb is None else T.mk_ite(at.args[0], ga, gb)
+                dl = oo - pin
+                B = ZERO
+                for m, c in dl.terms:
+                    d = dict(m)
+                    if d.get(ia, 0) != 1:
+                        return None
+                    rest = tuple(x for x in m if x[0] is not ia)
+                    B = B + Poly({rest: c})
+                return B + pin
+            g = split(o)
+            if g is not None:
                 if mentions(g, name):
-                    g = None
+                    # the new value of row i may read the OLD value of row i itself (X[c] = solve(A[c], X[c])): every row is
+                    # written exactly once, in its own iteration, so that old value is the original one
+                    bad = []
+                    ofn0 = orig.fn
+
+                    def repl(*args, axis=axis):
+                        a_ = P(args[axis]) if axis < len(args) else None
+                        if a_ is not None and len(args) == len(idx) and (T.equal(a_, P(i)) or T.equal(a_, P(idx[axis]))):
+                            return P(ofn0(*args))
+                        bad.append(args)
+                        return ZERO
+                    g2 = T.map_apps(g, name, repl)
+                    g = None if (bad or mentions(g2, name)) else g2
         if g is None:
             continue
         guard = GUARD[0]
@@ -266,6 +284,22 @@ def exec_for(I, s, env):
         ast.copy_location(w, s)
         ast.fix_missing_locations(w)
         return exec_while(I, w, env)
+    f_ = getattr(env, "func", None)
+    if type(it).__name__ == "SRange" and isinstance(s.target, ast.Name) and f_ is not None and I.loop_hooks.get(f_.qualname) is not None \
+            and (s.orelse or _has_break(s.body)):
+        # a counted loop of the function a loop contract is registered for (for step in range(max_steps): ...) is the while loop
+        #   x = start - 1; while x + 1 < stop: x += 1; <body>      (else-clause kept)
+        nm = s.target.id
+        hidden = "__range_stop_%d" % getattr(env, "loop_ordinal", 0)
+        env.local[hidden] = it.stop
+        I.assign(s.target, I.binop(ast.Sub, it.start, 1), env)
+        inc = ast.AugAssign(target=ast.Name(id=nm, ctx=ast.Store()), op=ast.Add(), value=ast.Constant(value=1))
+        test = ast.Compare(left=ast.BinOp(left=ast.Name(id=nm, ctx=ast.Load()), op=ast.Add(), right=ast.Constant(value=1)),
+                           ops=[ast.Lt()], comparators=[ast.Name(id=hidden, ctx=ast.Load())])
+        w = ast.While(test=test, body=[inc] + list(s.body), orelse=list(s.orelse))
+        ast.copy_location(w, s)
+        ast.fix_missing_locations(w)
+        return exec_while(I, w, env)
     if isinstance(it, (list, tuple, range, set)):
         broke = False
         for x in it:
@@ -288,6 +322,19 @@ def exec_for(I, s, env):
 
 
 from .interp import _Break as T_Break, _Continue as T_Continue  # noqa: E402
+
+
+def _has_break(body):
+    """a break that belongs to THIS loop (not to a loop nested in it): such a loop has no summary by the fold rules"""
+    stack = list(body)
+    while stack:
+        n = stack.pop()
+        if isinstance(n, ast.Break):
+            return True
+        if isinstance(n, (ast.For, ast.While, ast.FunctionDef, ast.Lambda, ast.ClassDef)):
+            continue
+        stack.extend(ast.iter_child_nodes(n))
+    return False
 
 
 def _target_names(t):
